@@ -56,7 +56,11 @@ def expected_adjust_mass():
 def affine_shape(ctx, rep, clause):
     program = ctx.program
     f = program.func(ADJUST_MASS)
-    paths = PathEval(f.node, {'charge is None': False, 'precision is not None': False}).run()
+    def helper(name):
+        g_ = program.find_func(f'{f.module.name}:{name}')
+        # only helpers whose value is part of the affine shape (not the adduct parser, which is an opaque atom)
+        return g_.node if g_ is not None and name.startswith('_') and name not in ('_parse_charge_adducts_mass',) else None
+    paths = PathEval(f.node, {'charge is None': False, 'precision is not None': False}, resolver=helper).run()
     got = [(c, _norm_poly(p)) for c, p in paths]
     exp = expected_adjust_mass()
     used = set()
@@ -98,7 +102,7 @@ def build_fragments_bindings(ctx, rep, clause):
                                            _assigned_from_sum(f, first.id)):
             # the neutral per-span base: sum(mass_components[span[0]:span[1]])
             e = first if isinstance(first, ast.Call) else _assigned_from_sum(f, first.id)
-            base_ok = _is_span_sum(e, (each('spans')(Canon(f.node)) or ['span'])[0])
+            base_ok = _is_span_sum(Canon(f.node).resolve(e), (each('spans')(Canon(f.node)) or ['span'])[0])
             ob(rep, 'KIND', BUILD, 'span base is sum(mass_components[span[0]:span[1]])', base_ok,
                'a residue contributes iff start <= index < stop',
                f'the base mass is {norm_stmt(e) if e is not None else "?"}: a modification would no longer '
